@@ -6,7 +6,7 @@ use super::{
 use crate::{
     PlutusData,
     ast::{FakeNamedDeBruijn, NamedDeBruijn, Program},
-    machine::{cost_model::ExBudget, eval_result::EvalResult},
+    machine::{self, cost_model::ExBudget, eval_result::EvalResult},
     tx::{
         phase_one::redeemer_tag_to_string,
         script_context::{DataLookupTable, PlutusScript, TxInfoV1, TxInfoV2, TxInfoV3},
@@ -117,6 +117,16 @@ fn eval_redeemer_with_optional_protocol(
 
         if let Err(err) = eval_result.result() {
             return Err(Error::Machine(err, cost, eval_result.traces()));
+        }
+
+        // A script can also fail without a machine error: a Plutus V3 script
+        // only succeeds when it evaluates to unit.
+        if eval_result.failed(false, lang) {
+            return Err(Error::Machine(
+                machine::Error::EvaluationFailure,
+                cost,
+                eval_result.traces(),
+            ));
         }
 
         let new_redeemer = Redeemer {
